@@ -316,7 +316,7 @@ def big_case(k, col):
         if not (v['iso'] == v['joliet'] == v['udf']):
             which = 'udf' if v['iso'] == v['joliet'] else 'joliet'
             col.fail('C04/big/names-describe-different-sectors/%s/%s' % (name if name != 'big' else 'big-file', which), 'big',
-                     'the names of one file (%d bytes) describe different sectors: ISO9660 %r, Joliet %r, UDF %r' % (length, v['iso'][:4], v['joliet'][:4], v['udf'][:4]), case)
+                     'the names of one file (%d bytes) describe different sectors: ISO9660 %r, Joliet %r, UDF %r' % (length, (v['iso'] or [])[:4], (v['joliet'] or [])[:4], (v['udf'] or 'an extent outside the partition')[:4]), case)
         # the bytes at the start of every run of the large file
         if name == 'big' and v['udf']:
             off = 0
